@@ -277,6 +277,20 @@ def run_case(case):
                 if bad:
                     out.append(harness.disc("line-records-reread", "open with usable cache", "no read beyond byte 720 of an image", bad[:3]))
                 out.extend(harness.diff_flat(ref_flat, harness.flatten(cached), kind="cached-differs"))
+            # (iii') the same open with create_cache=True added: a usable cache is still used (the
+            # statement "with use_cache=True and a usable cache the line records are not re-read"
+            # has no exception for it) and the tree is the same
+            if case["fs"] == "vtrace":
+                vtrace.STORE.clear()
+            again, err = harness.guard(harness.open_tree, url, use_cache=True, create_cache=True, records_per_chunk=case["rpc_read"])
+            events = vtrace.STORE.snapshot() if case["fs"] == "vtrace" else []
+            if err is not None:
+                out.append(harness.disc("exception", "open_alos2(use_cache=True, create_cache=True) with cache", "a tree", harness.exc_text(err)))
+            else:
+                bad = image_reads_beyond_descriptor(events)
+                if bad:
+                    out.append(harness.disc("line-records-reread", "open with usable cache and create_cache=True", "no read beyond byte 720 of an image", bad[:3]))
+                out.extend(harness.diff_flat(ref_flat, harness.flatten(again), kind="cached-differs"))
             # (ii) decoys must not influence use_cache=False
             if case["decoy"]:
                 for image in images:
